@@ -48,7 +48,8 @@ FACT = {None: 1.0, 'm': 1.0, 'cm': 100.0, 'mm': 1000.0}
 
 def build_and_check(case):
     import openmdao.api as om
-    shape, chain, depth, in_units, solver = case
+    shape, chain, depth, in_units, solver = case[:5]
+    scaled = len(case) > 5 and case[5]
     srcval = (np.arange(1.0, 1.0 + np.prod(shape)) * 1.5 - 4.0).reshape(shape)
     try:
         expected = apply_chain(srcval, chain)
@@ -71,7 +72,11 @@ def build_and_check(case):
     p = om.Problem(reports=False)
     model = p.model
     ivc = model.add_subsystem('src', om.IndepVarComp())
-    ivc.add_output('y', srcval.copy(), units='m')
+    if scaled:
+        # array-valued ref / ref0 on the source: the input's scaling entries must follow the same index chain
+        ivc.add_output('y', srcval.copy(), units='m', ref=2.0 + np.arange(srcval.size).reshape(shape) * 0.5, ref0=-1.0 + np.arange(srcval.size).reshape(shape) * 0.25)
+    else:
+        ivc.add_output('y', srcval.copy(), units='m')
     # nest the sink
     parent = model
     path = []
@@ -117,7 +122,7 @@ def build_and_check(case):
         model.connect('c1.a', 'c2.a')
         model.connect('c2.b', 'c1.b')
         model.nonlinear_solver = om.NonlinearBlockGS(maxiter=4, iprint=-1, atol=1e-30, rtol=1e-30, err_on_non_converge=False)
-    desc = dict(src_shape=list(shape), chain=[[spec_str(i), bool(f)] for i, f in chain], depth=depth, input_units=in_units, solver=solver)
+    desc = dict(src_shape=list(shape), chain=[[spec_str(i), bool(f)] for i, f in chain], depth=depth, input_units=in_units, solver=solver, source_has_array_ref_ref0=bool(scaled))
     try:
         p.setup()
         p.run_model()
@@ -134,7 +139,7 @@ def build_and_check(case):
 
 def f5a_region(case):
     """known finding F5a (see known_findings.json): non-tuple int / 1-d array / list index into a NON-FLAT source of rank > 1"""
-    shape, chain, depth, in_units, solver = case
+    shape, chain, depth, in_units, solver = case[:5]
     cur_rank = len(shape)
     cur = np.zeros(shape)
     for idx, flat in chain:
@@ -163,6 +168,8 @@ def main(tier):
                             cases.append((shape, ch, depth, u, solver))
     if not big:
         cases = [c for k, c in enumerate(cases) if k % 2 == 0 or len(c[1]) >= 2]
+    # the same connections with array-valued ref/ref0 on the source (solver scaling of the input follows the chain)
+    cases += [c + (True,) for k, c in enumerate(cases) if c[3] in (None, 'cm') and not c[4] and (big or k % 3 == 0 or len(c[1]) >= 2)]
     import multiprocessing as mp
     with mp.get_context('fork').Pool(16) as pool:
         res = pool.map(build_and_check, cases, chunksize=4)
